@@ -247,7 +247,8 @@ def norm (f : WFmt) (e : Entry) : Exp :=
     gname := if carriesNames f then some e.gname else none
     sym := if e.ftype = .lnk then some e.sym else none
     hard := if carriesHard f then some e.hard else none
-    rdev := if carriesRdev f ∧ (e.ftype = .chr ∨ e.ftype = .blk) then some (e.rdevmajor, e.rdevminor) else none
+    rdev := if carriesRdev f ∧ (e.ftype = .chr ∨ e.ftype = .blk) ∧ ¬(isHard ∧ isTar f)    -- a tar hard-link entry has no device fields
+            then some (e.rdevmajor, e.rdevminor) else none
     dev := if f = .odc ∨ f = .bin ∨ f = .pwb then some e.dev else none
     nlink := if isCpio f then some e.nlink.toNat else none
     body := e.ftype = .reg ∧ !isHard ∧ f ≠ .mtree }
